@@ -314,10 +314,13 @@ def stuck_cycles(func):
             continue
         vars_ = set()
         impure = False
+        reads_global = False
         for b in exits:
             for n in b.cond.walk():
                 if n.k == 'DeclRefExpr' and n['ref']['kind'] in ('var', 'parm'):
                     vars_.add(n['ref']['id'])
+                    if n['ref'].get('staticStorage') or n['ref'].get('fileScope'):
+                        reads_global = True
                 if n.k == 'CallExpr' and n.get('callee') not in PURE_CALLS:
                     impure = True   # the condition itself advances some state (getline, strtok_r, list iterator ...)
                 if n.k in ('BinaryOperator', 'CompoundAssignOperator') and (n.get('op') == '=' or n.k == 'CompoundAssignOperator'):
@@ -341,6 +344,8 @@ def stuck_cycles(func):
                     if l is not None and l.k == 'DeclRefExpr' and l['ref'].get('id') in vars_:
                         return True
                 if e.k == 'CallExpr':
+                    if reads_global and e.get('callee') not in PURE_CALLS:
+                        return True     # any callee may change the global the exit condition reads
                     for a in e.ch[1:]:
                         s = strip(a) if a is not None else None
                         if s is not None and s.k == 'UnaryOperator' and s.get('op') == '&':
